@@ -246,9 +246,18 @@ class NodeCtx:
             for g, q in cs:
                 if q.obj is None:
                     eng.add_obl('null-deref', st, g, 'virtual call on a null content pointer', 'observation stub')
-        if len(live) != 1 or live[0][1].obj not in self.contents:
-            raise Unsupported('content pointer does not designate one opaque content: %s' % (p,))
-        return live[0][1].obj, self.contents[live[0][1].obj]
+        if not live or any(q.obj not in self.contents for g, q in live):
+            raise Unsupported('content pointer does not designate opaque contents: %s' % (p,))
+        if len(live) == 1:
+            return live[0][1].obj, self.contents[live[0][1].obj]
+        # a pointer merged over several paths (e.g. "already zero-based: the content itself, else: the trimmed content"): ite over the cases
+        length, atoms, derived = None, None, None
+        for g, q in live:
+            info = self.contents[q.obj]
+            length = info['length'] if length is None else z3.If(g, info['length'], length)
+            atoms = info['atoms'] if atoms is None else z3.If(g, info['atoms'], atoms)
+            derived = info['derived']
+        return '(merged)', dict(length=z3.simplify(length), atoms=atoms, derived=derived)
 
     def _ret(self, st, sret, p):
         rec = st.mem.o[sret.obj]
